@@ -350,7 +350,8 @@ class Normalizer:
 
     @staticmethod
     def _is_seq(t) -> bool:
-        return isinstance(t, tuple) and bool(t) and t[0] in ("tuple", "concat")
+        return isinstance(t, tuple) and bool(t) and (t[0] in ("tuple", "concat") or (t[0] == "k" and isinstance(t[1], str) and t[1] not in ("inf", "nan", "div0", "pi"))
+                                                      or (t[0] == "call" and t[1] == "<fstring>"))
 
     def concat(self, parts) -> dict:
         """Ordered concatenation of sequences (the `+` of tuples / lists, `(*a, b)`): unlike a sum it does not commute. Adjacent
